@@ -1,31 +1,60 @@
 (* Props/C17.v — property C17 "Memory held for a streamed text log does not grow with its size".
-   Statements only.  PARTIAL claim: the model (Model/Retain.v) counts what the --summary
+   Statements only.  The model (Model/Retain.v) counts what the --summary
    high-water marks count (entries of BlockReader.blocks, LineReader.lines,
    SyslineReader.syslines); real heap use is not modelled.  `run c (init ms) evs` is the reader
    state after the schedule `evs` (EW = one iteration of the worker loop of
    exec_syslogprocessor: find, send, drop_data_try; ER j = the consumer side lets go of message
    j); every interleaving is some list.  `sched_ok H` = at most H messages are referenced by
    the consumer side at any time (H = channel capacity + 2).
-   The search phase of a windowed run on a plain file (binary search, logarithmic) is left out. *)
-From Coq Require Import List NArith Bool.
+   A run with a datetime window on a plain file first searches the file (Model/RetainSearch.v:
+   block-zero analysis, then the binary search of Model/Search.v whose every probe stores the
+   message it lands in, then the stage-3 loop): `w_run c bs ms t evs`, t = the window start. *)
+From Coq Require Import List NArith ZArith Bool.
 Import ListNotations.
-From S4.Model Require Import Retain.
-From S4.Proofs Require Import RetainProofs.
+From S4.Spec Require Import WindowSpec.
+From S4.Model Require Import Retain Search RetainSearch.
+From S4.Proofs Require Import RetainProofs RetainLayout RetainLag SearchProofs RetainSearchProofs RetainSearchFuel.
 Open Scope N_scope.
 
 (* The repaired policy P_retry (failed releases are retried; a block is also released with the
-   line that ends on its last byte): for every block size, every well-formed message sequence
-   whose messages occupy at most `span` blocks and `ml` lines, plain or streamed container, every
-   H and EVERY schedule respecting H, the stores never exceed the marks and the marks never
-   exceed
+   line that ends on its last byte): for EVERY layout (list of (line length, dated)) whose lines
+   have at least one byte and whose first line is dated, every block size > 0, plain or streamed
+   container, every H and EVERY schedule respecting H, the stores never exceed the marks and the
+   marks never exceed
        syslines  (2 span + 2) bs + 1
        lines     ((2 span + 2) bs + H + 2) ml + 2
        blocks    ((2 span + 2) bs + H + 4) span
-   — no dependence on the number of messages.
-   _partial: quantified over all well-formed message sequences (`wf`), not literally over all
-   layouts; that `layout_msgs bs layout` is well-formed is decided by `wfb` (sound, below) and
-   evaluated on every generated case by the correspondence run, not proved for all layouts. *)
-Theorem C17_retry_bounded_partial : forall bs span ml H ms c evs,
+   where span / ml are the largest number of blocks / lines of one message of the file — no
+   dependence on the number of messages. *)
+Theorem C17_retry_bounded : forall bs layout H c evs,
+  pol c = P_retry -> layout_ok bs layout ->
+  let ms := layout_msgs bs layout in
+  let span := max_span ms in let ml := max_lines ms in
+  sched_ok H c (init ms) evs = true ->
+  let s := run c (init ms) evs in
+  lenN (syslines s) <= hs s /\ hs s <= bound_syslines bs span /\
+  lenN (lines s) <= hl s /\ hl s <= bound_lines bs span ml H /\
+  lenN (blocks s) <= hb s /\ hb s <= bound_blocks bs span H /\
+  lenN (pending s) <= H.
+Proof. exact retry_bounded_layout. Qed.
+Print Assumptions C17_retry_bounded.
+
+(* the hypothesis on the layout, spelled out *)
+Theorem C17_layout_ok_explicit : forall bs layout,
+  layout_ok bs layout <->
+  0 < bs /\ Forall (fun x => 1 <= fst x) layout /\
+  match layout with (_, d) :: _ => d = true | [] => True end.
+Proof. exact layout_ok_explicit. Qed.
+Print Assumptions C17_layout_ok_explicit.
+
+(* every such layout yields a well-formed message sequence (the lemma that was missing) ... *)
+Theorem C17_layout_msgs_wf : forall bs layout, layout_ok bs layout ->
+  let ms := layout_msgs bs layout in wf bs (max_span ms) (max_lines ms) ms.
+Proof. exact layout_msgs_wf. Qed.
+Print Assumptions C17_layout_msgs_wf.
+
+(* ... and the bound over all well-formed message sequences, from which the theorem above follows *)
+Theorem C17_retry_bounded_wf : forall bs span ml H ms c evs,
   pol c = P_retry -> wf bs span ml ms -> sched_ok H c (init ms) evs = true ->
   let s := run c (init ms) evs in
   lenN (syslines s) <= hs s /\ hs s <= bound_syslines bs span /\
@@ -33,7 +62,7 @@ Theorem C17_retry_bounded_partial : forall bs span ml H ms c evs,
   lenN (blocks s) <= hb s /\ hb s <= bound_blocks bs span H /\
   lenN (pending s) <= H.
 Proof. exact retry_bounded. Qed.
-Print Assumptions C17_retry_bounded_partial.
+Print Assumptions C17_retry_bounded_wf.
 
 (* "after every step": every prefix of an admissible schedule is admissible *)
 Theorem C17_sched_ok_prefix : forall H c a s b,
@@ -55,6 +84,11 @@ Print Assumptions C17_bounds_explicit.
 
 (* the hypotheses are satisfiable (multi-line and multi-block messages, block size 64, the
    consumer 7 messages behind); on that input the current policy reaches 216/283 *)
+Theorem C17_layout_ok_example : layout_ok 64 ex_layout /\
+  max_span (layout_msgs 64 ex_layout) = 5 /\ max_lines (layout_msgs 64 ex_layout) = 3.
+Proof. exact layout_ok_example. Qed.
+Print Assumptions C17_layout_ok_example.
+
 Theorem C17_retry_bounded_example :
   let ms := layout_msgs 64 ex_layout in
   wfb 64 (max_span ms) (max_lines ms) ms = true /\
@@ -96,10 +130,39 @@ Theorem C17_retain_edge_family :
 Proof. split; [exact edge_layout_single | exact retain_edge_retry_witnesses]. Qed.
 Print Assumptions C17_retain_edge_family.
 
-(* FINDING F9a (current policy).  WITNESS INSTANCES, not a proof for all n: block size 64,
-   n messages of 70 bytes (two blocks each), the consumer 7 = cap + 2 messages behind (the
-   schedule respects |held| <= 7): at the end all but 7 of the n lines are still stored, and
-   n - 10 releases failed and were never retried, for n = 50, 100, 200, 400 ... *)
+(* FINDING F9a (current policy), for EVERY n: block size 64, three short lines and n messages of
+   70 bytes (two blocks each), the consumer 7 = CHANNEL_CAPACITY + 2 messages behind.  The schedule
+   never has more than 7 messages referenced by the consumer side (sched_ok 7), yet no release
+   ever succeeds: at the end all n + 3 lines and at least n blocks are still stored. *)
+Theorem C17_retain_lag_refuted : forall n : nat,
+  let ms := layout_msgs 64 (lag_layout n) in
+  let evs := sched_lag 7 (length ms) in
+  let s := run cur_plain (init ms) evs in
+  sched_ok 7 cur_plain (init ms) evs = true /\
+  lenN ms = N.of_nat n + 3 /\ dok s = 0 /\
+  lenN (lines s) = N.of_nat n + 3 /\ N.of_nat n + 3 <= hl s /\
+  N.of_nat n <= lenN (blocks s) /\ N.of_nat n <= hb s.
+Proof. exact retain_lag_all_n. Qed.
+Print Assumptions C17_retain_lag_refuted.
+
+(* F9a, general form: for every message sequence (keys 0, 1, 2, ..; each message knows the first
+   line of the next) in which a message lag - 2 or more positions before p lies at least two
+   blocks before p (so the drop reaches it while the consumer, lag behind, still references it),
+   the schedule sched_lag lag respects the bound lag and the current policy releases nothing:
+   every line of the file (and, plain file, every block read) is still stored at the end. *)
+Theorem C17_retain_lag_general : forall c lag ms,
+  pol c = P_cur -> 3 <= lag -> map mkey ms = nseq 0 (length ms) -> linked ms ->
+  (forall m p, In m ms -> In p ms -> mkey m + lag <= mkey p + 2 -> 3 <= mfb p /\ mlb m + 2 <= mfb p) ->
+  let evs := sched_lag lag (length ms) in
+  let s := run c (init ms) evs in
+  sched_ok lag c (init ms) evs = true /\ dok s = 0 /\
+  lenN (lines s) = lenN (file_lines ms) /\ lenN (file_lines ms) <= hl s /\
+  lenN (blocks s) <= hb s /\
+  (streamed c = false -> lenN (blocks s) = nread s /\ forall m, In m ms -> mlb m + 1 <= nread s).
+Proof. exact cur_lag_keeps_everything. Qed.
+Print Assumptions C17_retain_lag_general.
+
+(* concrete instances evaluated by vm_compute (n = 50 .. 400), kept as a cross-check of the model *)
 Theorem C17_retain_lag_refuted_witnesses :
   forallb (fun n => let s := run_layout cur_plain 64 (lag_layout n) 7 in
                     lag_sched_ok cur_plain 64 (lag_layout n) 7 7 &&
@@ -124,3 +187,82 @@ Theorem C17_retain_yearless_refuted : forall c ms,
   syslines (find_all c ms) = ms /\ lenN ms <= hs (find_all c ms).
 Proof. exact yearless_keeps_all. Qed.
 Print Assumptions C17_retain_yearless_refuted.
+
+(* THE WINDOWED CLAUSE.  Repaired policy, plain file, EVERY layout, block size, window start t, H
+   and EVERY stage-3 schedule respecting H: the marks of a run that searches the file first exceed
+   the bounds of C17_retry_bounded by at most K messages, 2 ml K lines and 2 ml (span + 1) K + 1
+   blocks, where K = 9 + 2 * bit length(file size) <= 11 + 2 log2(file size) is the largest number
+   of find_sysline calls of the block-zero analysis and the search: logarithmic in the size of the
+   file, never linear.  Nothing is dropped during the search; whatever the search stored may stay. *)
+Theorem C17_windowed_bounded : forall bs layout H c t evs,
+  pol c = P_retry -> streamed c = false -> layout_ok bs layout ->
+  let ms := layout_msgs bs layout in
+  let span := max_span ms in let ml := max_lines ms in
+  let K := 9 + 2 * N.size (wfilesz ms) in
+  w_run_sched_ok H c bs ms t evs = true ->
+  let T := w_run c bs ms t evs in
+  hs (wb T) <= bound_syslines bs span + K /\
+  hl (wb T) <= bound_lines bs span ml H + K * (2 * ml) /\
+  hb (wb T) <= bound_blocks bs span H + (K * (2 * ml * (span + 1)) + 1) /\
+  lenN (syslines (wb T)) <= hs (wb T) /\ lenN (lines (wb T)) <= hl (wb T) /\ lenN (blocks (wb T)) <= hb (wb T) /\
+  K <= 11 + 2 * N.log2 (wfilesz ms).
+Proof. exact retry_windowed_bounded_layout. Qed.
+Print Assumptions C17_windowed_bounded.
+
+(* the same over well-formed message sequences, with the number of finds of the search spelled out *)
+Theorem C17_windowed_bounded_wf : forall bs span ml H ms c,
+  pol c = P_retry -> streamed c = false -> wf bs span ml ms -> forall t evs,
+  w_run_sched_ok H c bs ms t evs = true ->
+  let K := search_finds ms in
+  let T := w_run c bs ms t evs in
+  hs (wb T) <= bound_syslines bs span + K /\
+  hl (wb T) <= bound_lines bs span ml H + K * (2 * ml) /\
+  hb (wb T) <= bound_blocks bs span H + (K * (2 * ml * (span + 1)) + 1) /\
+  lenN (syslines (wb T)) <= hs (wb T) /\ lenN (lines (wb T)) <= hl (wb T) /\ lenN (blocks (wb T)) <= hb (wb T).
+Proof. exact windowed_bounded. Qed.
+Print Assumptions C17_windowed_bounded_wf.
+
+Theorem C17_windowed_finds_explicit : forall ms,
+  search_finds ms = 9 + 2 * N.size (wfilesz ms) /\ N.size (wfilesz ms) <= N.log2 (wfilesz ms) + 1.
+Proof. exact windowed_finds_explicit. Qed.
+Print Assumptions C17_windowed_finds_explicit.
+
+(* the file size the logarithm is taken of is the size of the file: the sum of the line lengths *)
+Theorem C17_windowed_filesz : forall bs layout, layout_ok bs layout ->
+  wfilesz (layout_msgs bs layout) = fold_right (fun x t => fst x + t) 0 layout.
+Proof. exact wfilesz_layout. Qed.
+Print Assumptions C17_windowed_filesz.
+
+(* the search of the windowed model IS the binary search of Model/Search.v (property C03) with the
+   fuel 2 + bit length(file size), and on every file of the domain (dated lines of two bytes or
+   more; instants increase with the message number) it completes: never out of fuel, no panic,
+   no error path, and it returns the first message at or after the window start *)
+Theorem C17_windowed_search_completes : forall bs layout t,
+  layout_ok bs layout -> Forall (fun x => snd x = true -> 2 <= fst x) layout ->
+  let r := snd (w_search bs (layout_msgs bs layout) t) in
+  r <> SOutOfFuel /\ (forall c, r <> SPanic c /\ r <> SDoneErr c) /\
+  r = spec_res (first_at_or_after s_t s_next (Some t) 0 (wgs (layout_msgs bs layout))).
+Proof. exact w_search_completes. Qed.
+Print Assumptions C17_windowed_search_completes.
+
+(* the hypotheses are satisfiable: 163 messages, 13783 bytes, block size 64, window starting at
+   message 80, the consumer 7 behind; the search makes at most 37 finds and leaves 20 blocks /
+   21 lines / 9 messages, the repaired policy never exceeds that in the stream phase; the current
+   policy reaches 117 / 149 on the same schedule (F9a) and 20 / 21 when the consumer keeps up *)
+Theorem C17_windowed_example :
+  let ms := layout_msgs 64 ex_layout in
+  let evs := w_sched_lag 7 80 82 in
+  wfilesz ms = 13783 /\ search_finds ms = 37 /\
+  snd (w_search 64 ms 80) = SFound 6815 (mkSl 6785 30 80%Z) /\
+  w_run_sched_ok 7 retry_plain 64 ms 80 evs = true /\
+  wmarks (fst (w_search 64 ms 80)) = (20, 21, 9) /\
+  wmarks (w_run retry_plain 64 ms 80 evs) = (20, 21, 9) /\
+  wmarks (w_run cur_plain 64 ms 80 evs) = (117, 149, 9) /\
+  wmarks (w_run cur_plain 64 ms 80 (w_sched_lag 1 80 82)) = (20, 21, 9).
+Proof. exact windowed_example. Qed.
+Print Assumptions C17_windowed_example.
+
+Theorem C17_windowed_example_domain :
+  layout_ok 64 ex_layout /\ Forall (fun x => snd x = true -> 2 <= fst x) ex_layout.
+Proof. exact windowed_example_domain. Qed.
+Print Assumptions C17_windowed_example_domain.
